@@ -230,21 +230,13 @@ Proof.
   rewrite E. reflexivity.
 Qed.
 
-(* the kinds of node the theorem covers: every declaration kind and every statement kind except
-   switch (with its break / fallthrough statements) *)
-Definition covered_kind (s : stmt) : bool :=
-  match s with
-  | SSwitch _ _ _ _ _ _ _ _ | SBreak _ _ | SFallthrough _ _ => false
-  | _ => true
-  end.
-
-Lemma cstmt_covered s nx : cstmt fok s nx -> covered_kind s = true.
-Proof. intros H. destruct H as [s0 nx0 Hq| | | |]; try reflexivity. destruct s0; try contradiction; reflexivity. Qed.
-
 End P.
 
 (* ---------- a witness:
-   sub f(STRING a) BOOL { esi; if (x == "1") { set req.http.A = a "b"; } elsif (!y) { } else { lbl: g(a); } return (true); } *)
+   sub f(STRING a) BOOL { esi; if (x == "1") { set req.http.A = a "b"; } elsif (!y) { } else { lbl: g(a); }
+                          switch (req.http.A) { case "a": restart; fallthrough; case ~"b": break; default: break; }
+                          return (true); }
+   acl office { !"10.0.0.0"/8; } *)
 Local Open Scope string_scope.
 Definition k_ (t : ttype) (s : string) : token := tk t s.
 Definition ex_prog : list stmt :=
@@ -265,6 +257,16 @@ Definition ex_prog : list stmt :=
                      SFunCall (k_ T_IDENT "g") (k_ T_LEFT_PAREN "(") (ASome (EIdent (k_ T_IDENT "a")) ATNil)
                               (k_ T_RIGHT_PAREN ")") (k_ T_SEMICOLON ";") ],
                    k_ T_RIGHT_BRACE "}"));
+        SSwitch (k_ T_SWITCH "switch") (k_ T_LEFT_PAREN "(") (EIdent (k_ T_IDENT "req.http.A")) (k_ T_RIGHT_PAREN ")")
+                (k_ T_LEFT_BRACE "{")
+                [ Case (CCase (k_ T_CASE "case") (CTEq (EString (tstr "a") (s2b "a")))) (k_ T_COLON ":")
+                       [ SRestart (k_ T_RESTART "restart") (k_ T_SEMICOLON ";");
+                         SFallthrough (k_ T_FALLTHROUGH "fallthrough") (k_ T_SEMICOLON ";") ] true;
+                  Case (CCase (k_ T_CASE "case") (CTRegex (k_ T_REGEX_MATCH "~") (EString (tstr "b") (s2b "b")))) (k_ T_COLON ":")
+                       [ SBreak (k_ T_BREAK "break") (k_ T_SEMICOLON ";") ] false;
+                  Case (CDefault (k_ T_DEFAULT "default")) (k_ T_COLON ":")
+                       [ SBreak (k_ T_BREAK "break") (k_ T_SEMICOLON ";") ] false ]
+                2%Z (k_ T_RIGHT_BRACE "}");
         SReturn (k_ T_RETURN "return")
                 (Some (Some (k_ T_LEFT_PAREN "("), EBool (k_ T_TRUE "true"), Some (k_ T_RIGHT_PAREN ")")))
                 (k_ T_SEMICOLON ";") ]
@@ -290,6 +292,16 @@ Proof.
           apply cb_cons; [apply c_label; try reflexivity; vm_compute; discriminate|].
           apply cb_cons; [apply c_funcall; try reflexivity; vm_compute; repeat split; reflexivity|].
           apply cb_nil. reflexivity. }
+    apply cb_cons.
+    { apply c_switch; [reflexivity | reflexivity | reflexivity | reflexivity | reflexivity | | vm_compute; reflexivity | vm_compute; reflexivity].
+      apply cs_cons; [vm_compute; repeat split; reflexivity | reflexivity | |].
+      - apply cy_cons; [apply c_simple; vm_compute; repeat split; reflexivity|].
+        apply cy_fall; try reflexivity. left. reflexivity.
+      - apply cs_cons; [vm_compute; repeat split; try reflexivity; discriminate | reflexivity | |].
+        + apply cy_break; try reflexivity. right. left. reflexivity.
+        + apply cs_cons; [reflexivity | reflexivity | |].
+          * apply cy_break; try reflexivity. right. right. reflexivity.
+          * apply cs_nil. reflexivity. }
     apply cb_cons; [apply c_simple; vm_compute; repeat split; reflexivity|].
     apply cb_nil. reflexivity.
   - cbn [cdeclx]. repeat split; try reflexivity. constructor; [|constructor]. vm_compute. repeat split; reflexivity.
